@@ -93,6 +93,8 @@ fn b1_values() -> Vec<Blk> {
             }
         }
     }
+    v.push(Blk::Val(65535, true, 0));
+    v.push(Blk::Val(65535, false, 7));
     v
 }
 fn b2_values() -> Vec<Blk> {
@@ -105,6 +107,10 @@ fn b2_values() -> Vec<Blk> {
     // block numbers just below / at / just beyond the end of the application bodies (100 and 300 bytes at
     // 16-byte blocks: 7 and 19 blocks; 100 bytes at 64: 2 blocks; 10000 bytes at 1024: 10 blocks)
     for (num, szx) in [(6u32, 0u8), (7, 0), (8, 0), (18, 0), (19, 0), (20, 0), (2, 2), (3, 2), (9, 6), (10, 6), (11, 6)] {
+        v.push(Blk::Val(num, false, szx));
+    }
+    // the largest block numbers the 16-bit field holds
+    for (num, szx) in [(65534u32, 0u8), (65535, 0), (65535, 7)] {
         v.push(Blk::Val(num, false, szx));
     }
     v
@@ -226,7 +232,7 @@ fn depth1(ctx: &Ctx, rep: &mut Report) {
     ctx.family(
         rep,
         "depth1-full-product",
-        "single hostile request: type {CON,NON,ACK,RST} x method {GET,PUT} x option bloat {0,40,1400} x Block1 {none, junk, num {0,1,2,100,4095} x more x SZX {0,6,7}} x Block2 {none, junk, num {0,1,100} x SZX {0,7}, 11 values at the end of the application bodies} x payload {0,16,1200} (7680 templates) x every budget 0..=64, {100,500,1152,1280,2000,5000}, 65..5000 step 97 x application reply {empty, 10000-byte body, 100 bytes + 1400 bytes of options, own Block2, 300-byte body, 100-byte body}",
+        "single hostile request: type {CON,NON,ACK,RST} x method {GET,PUT} x option bloat {0,40,1400} x Block1 {none, junk, num {0,1,2,100,4095} x more x SZX {0,6,7}, num 65535} x Block2 {none, junk, num {0,1,100} x SZX {0,7}, 11 values at the end of the application bodies, num 65534/65535} x payload {0,16,1200} (7680 templates) x every budget 0..=64, {100,500,1152,1280,2000,5000}, 65..5000 step 97 x application reply {empty, 10000-byte body, 100 bytes + 1400 bytes of options, own Block2, 300-byte body, 100-byte body}",
         n,
         true,
         |i, rep| {
@@ -391,8 +397,68 @@ fn deep(ctx: &Ctx, rep: &mut Report) {
     }
 }
 
+/// A large buffer built by in-order blocks, then one block that jumps ahead: the jump bound must hold
+/// whatever the buffer's length or spare capacity is.
+fn jump_after_large_buffer(ctx: &Ctx, rep: &mut Report) {
+    let prior: [usize; 7] = [0, 1, 8, 16, 17, 20, 33];
+    let jumps: [usize; 8] = [0, 1, 15 * 1024, 16 * 1024 - 2048, 16 * 1024, 16 * 1024 + 2048, 28 * 1024, 60 * 1024];
+    let radices = [2u64, prior.len() as u64, jumps.len() as u64, 2, 2];
+    let n = product(&radices);
+    ctx.family(
+        rep,
+        "jump-after-large-buffer",
+        "k in {0,1,8,16,17,20,33} in-order blocks of 1024/2048 bytes, then one block whose offset lies {0, 1 block, 15K, 14K, 16K, 18K, 28K, 60K} beyond the buffered data x more flag x payload {1 byte, full block}; budget 5000",
+        n,
+        true,
+        |i, rep| {
+            let d = decode(i, &radices);
+            let szx: u8 = if d[0] == 0 { 6 } else { 7 };
+            let bs = rb::size(szx);
+            let k = prior[d[1] as usize];
+            let jump_blocks = jumps[d[2] as usize] / bs;
+            let more = d[3] == 1;
+            let plen = if d[4] == 0 { 1 } else { bs };
+            let mut srv = Server::new(5000, Duration::from_secs(3600));
+            let mk = |num: u32, more: bool, len: usize| Template { mtype: 0, method: 3, bloat: 0, b1: Blk::Val(num, more, szx), b2: Blk::None, payload: len, path: "big", ep: 1 };
+            for j in 0..k {
+                let t = mk(j as u32, true, bs);
+                let before = srv.snapshot();
+                let x = srv.exchange(1, &t.bytes(43_000), &|_c| app_reply(0));
+                let after = srv.snapshot();
+                rep.visit(&(j, szx, "fill"));
+                if let Err((sig, what)) = judge(&t, &x, &before, &after) {
+                    rep.violation(viol("jump-after-large-buffer", i, sig, format!("in-order block {}: {}", j, what), t.json()));
+                    return;
+                }
+            }
+            let t = mk((k + jump_blocks) as u32, more, plen);
+            let before = srv.snapshot();
+            let x = srv.exchange(1, &t.bytes(43_001), &|_c| app_reply(0));
+            let after = srv.snapshot();
+            rep.visit(&(k, szx, jump_blocks, more, plen));
+            match judge(&t, &x, &before, &after) {
+                Ok(class) => {
+                    rep.count(class);
+                    rep.bucket(&("jump", szx, k, jump_blocks, more, plen == 1, class));
+                }
+                Err((sig, what)) => {
+                    rep.count("violation");
+                    rep.violation(viol(
+                        "jump-after-large-buffer",
+                        i,
+                        sig,
+                        format!("after {} in-order blocks of {} bytes: {}", k, bs, what),
+                        t.json().set("prior_blocks", k).set("block_size", bs),
+                    ));
+                }
+            }
+        },
+    );
+}
+
 pub fn run(ctx: &Ctx, rep: &mut Report) {
     depth1(ctx, rep);
+    jump_after_large_buffer(ctx, rep);
     depth2(ctx, rep);
     deep(ctx, rep);
     rep.assume("requests are built with the reference encoder and are parseable; the application never panics; replies are encoded with the unlimited encoder (the budget is C10's concern)");
